@@ -4,7 +4,7 @@ from ..core import Failure
 
 PAIRS = [q + o for q in 'AE' for o in 'XFGUR']
 NAMINGS = ['int', 'str', 'revint', 'tuple', 'mixed', 'zigzag', 'numeq']
-FORMS = ['obj', 'text', 'str', 'ctls', 'shared']
+FORMS = ['obj', 'text', 'str', 'ctls', 'shared', 'raw']
 
 
 def pairs_in(f, acc=None):
@@ -16,15 +16,15 @@ def pairs_in(f, acc=None):
     return acc
 
 
-def call(K, f, naming, how, form, kripke=None, atoms=None):
+def call(K, f, naming, how, form, kripke=None, atoms=None, containers='list'):
     if form == 'ctls':
-        return mc.call('CTL', K, f, naming, how, form='obj', objlang='CTLS', kripke=kripke, atoms=atoms)
+        return mc.call('CTL', K, f, naming, how, form='obj', objlang='CTLS', kripke=kripke, atoms=atoms, containers=containers)
     if form == 'str':
         # CTL objects print in a native notation ('AX p') that the CTL parser does not read
         # and that no property claims to round-trip; the CTL* printed form is the documented
         # text form (C09), so 'str' means str() of the CTL* object
-        return mc.call('CTL', K, f, naming, how, form='str', objlang='CTLS', kripke=kripke, atoms=atoms)
-    return mc.call('CTL', K, f, naming, how, form=form, kripke=kripke, atoms=atoms)
+        return mc.call('CTL', K, f, naming, how, form='str', objlang='CTLS', kripke=kripke, atoms=atoms, containers=containers)
+    return mc.call('CTL', K, f, naming, how, form=form, kripke=kripke, atoms=atoms, containers=containers)
 
 
 def check_ctl(inp):
@@ -36,7 +36,8 @@ def check_ctl(inp):
         exp2 = ref.star_eval(M, f)
         if exp2 != exp:
             raise core.HarnessError('R-CTL and R-STAR disagree on %r' % (inp,))
-    out = call(K, f, inp.get('naming', 'int'), inp.get('how', 0), inp.get('form', 'obj'), atoms=inp.get('atoms'))
+    out = call(K, f, inp.get('naming', 'int'), inp.get('how', 0), inp.get('form', 'obj'), atoms=inp.get('atoms'),
+               containers=inp.get('containers', 'list'))
     return compare(inp, exp, out)
 
 
@@ -238,7 +239,8 @@ def enum_shard(st, shard, nshards, payload):
             how = idx % 6
             ai = (idx // 2) % len(fm.ATOM_MAPS)
             amap = fm.atom_map(ai)
-            kripke = km.to_lib(km.rename_labels(K, amap), naming, how)
+            cont = 'shared' if idx % 4 == 3 else 'list'
+            kripke = km.to_lib(km.rename_labels(K, amap), naming, how, cont)
             back = dict((km.name_of(naming)(i), i) for i in range(n))
             memo = {}
             for fi, f in enumerate(forms):
@@ -247,7 +249,7 @@ def enum_shard(st, shard, nshards, payload):
                 exp = ref.ctl_eval(M, f, memo)
                 ok_ = (fi, ai if amap else None)
                 if ok_ not in objs:
-                    objs[ok_] = fm.to_lib(fm.rename_atoms(f, amap), L, share={} if fi % 2 else None)
+                    objs[ok_] = fm.to_lib(fm.rename_atoms(f, amap), L, raw_leaves=(fi % 3 == 2), share={} if fi % 2 else None)
                 try:
                     res = L.modelcheck(kripke, objs[ok_])
                     out = mc.normalise(res, back)
@@ -262,7 +264,7 @@ def enum_shard(st, shard, nshards, payload):
                     for ft in feats:
                         st.bump(ft)
                 if out != ('set', exp):
-                    inp = {'K': K, 'f': f, 'naming': naming, 'how': how, 'form': 'shared' if fi % 2 else 'obj', 'atoms': ai}
+                    inp = {'K': K, 'f': f, 'naming': naming, 'how': how, 'form': 'raw' if fi % 3 == 2 else ('shared' if fi % 2 else 'obj'), 'atoms': ai, 'containers': cont}
                     fresh = check_ctl(inp)
                     if fresh is None:
                         st.add_extra('mismatch_only_with_reused_structure')
@@ -447,6 +449,7 @@ def random_shard(st, shard, nshards, payload):
         'naming': hs.sampled_from(NAMINGS),
         'how': hs.integers(0, 5),
         'atoms': hs.integers(0, len(fm.ATOM_MAPS) - 1),
+        'containers': hs.sampled_from(['list', 'list', 'set', 'tuple', 'shared']),
         'form': hs.sampled_from(FORMS),
     })
 
